@@ -226,6 +226,8 @@ def _cast(v, dt):
             return v.resize(dt.bits)
         raise ModelGap('bit-vector cast to %s' % dt)
     if k == 'f':
+        if v is None:
+            return float('nan')
         if t is float:
             return v
         if t is int or t is bool:
@@ -822,8 +824,10 @@ class ndarray(object):
             self._shape, self._dtype, template=self)
         return r
 
-    def astype(self, dt, copy=True):
+    def astype(self, dt, order='K', casting='unsafe', subok=True, copy=True):
         dt = _dtype(dt)
+        if not copy and dt == self._dtype:
+            return self              # NumPy returns the array itself when nothing has to change
         return builtins.type(self)._from_flat([_cast(e, dt) for e in self._elems()],
                                               self._shape, dt, template=self)
 
